@@ -303,7 +303,7 @@ func (s *outStream) Close() error {
 		n.Stats.Delivered++
 		n.mu.Unlock()
 		in := &inStream{r: bytes.NewReader(payload), c: &conn{remote: from.id, raddr: from.addr, laddr: remote.addr}, proto: s.proto}
-		if k := simrt.K; k != nil {
+		if k := simrt.Active(); k != nil {
 			k.Go(fmt.Sprintf("%s.handler", remote.Node), remote.Node, func() { handler(in) })
 		} else {
 			handler(in)
